@@ -884,6 +884,8 @@ def xml_diff(exp, got, path):
                     pass
             if tag == 'constant' and k == 'value' and _is_bool_constant(exp) and (gv in ('1', 'true')) == (ev in ('1', 'true')):
                 continue
+        if tag == 'virtual-method' and k == 'offset' and gv is None:
+            continue            # not an attribute of the GIR schema: compared only when written
         raise XMismatch(here, '@' + k, ev, gv)
     groups_e, groups_g = {}, {}
     for c in exp[2]:
